@@ -30,6 +30,9 @@ pub enum T {
     SubId(u16),
     /// SUBSCRIBE with an invalid filter
     SubBad(u16),
+    /// SUBSCRIBE with 40 filters: its SUBACK (one code per filter) is larger than a small outbound packet limit and
+    /// cannot be encoded
+    SubMany(u16),
     Unsub(u16),
     SubAck(u16),
     UnsubAck(u16),
@@ -196,6 +199,13 @@ impl In {
                     _ => 7,
                 };
                 let p = rf::ack(typ, id);
+                let b = enc(&p);
+                (Some(p), b, vec![], tag)
+            }
+            T::SubMany(id) => {
+                let id = idsel(self, id);
+                let filters: Vec<(String, u8)> = (0..40).map(|i| (format!("m{}/{i}", self.sent.len()), 0)).collect();
+                let p = Pkt::Subscribe { pid: id, props: vec![], filters };
                 let b = enc(&p);
                 (Some(p), b, vec![], tag)
             }
